@@ -52,6 +52,17 @@ CHECKS = {
                 "buf + padded_buflen - 1 - i with i < blocksize after padded_buflen >= blocksize > 0, i.e. inside the final block. Marker "
                 "position, round-trip and the rejection set are not decided.",
     },
+    "C20": {
+        "engine": "PathAI (E1) + call-graph effects (E2)",
+        "technique": "path-sensitive typestate analysis of allocations (tested-before-use, error propagation, release-once, no leak) over every fault position",
+        "text": "Static, for every single allocation/mapping failure position at once: in all functions reachable from the password-hashing and "
+                "guarded-allocation APIs, allocator results are tested before any use and their failing arm only reaches failing exits; every "
+                "success exit has an established success fact for every fallible step on its path and no fallible result is dropped; the "
+                "*_str_verify functions report a match only via hash-succeeded and constant-time compare-equal; each allocation is released "
+                "at most once, never used after release, and is released/returned/owned at every exit. The thorough tier repeats this for the "
+                "posix_memalign and plain-malloc arms (HAVE_MMAP / HAVE_POSIX_MEMALIGN undefined).",
+        "note": "libc model: mmap without MAP_FIXED returns MAP_FAILED or non-NULL; errno storage aliases nothing.",
+    },
 }
 _PENDING = "check not built yet in this round (design in DESIGN.md §4); no claim is made"
 NOT_APPLICABLE = {
